@@ -81,8 +81,8 @@ CHECKS = {
          "Chunk->cut mapping over every sequence for enumerated and generated cut lists; estimates for every kind of previous chunk (incl. 0, >55, non-numeric), histories of up to 50 samples over several keys, stats present or not.",
          "Attempt adjustment only bounded (formula not fixed by the statement); wall-clock base cases only bounded below.",
          "DESIGN.md §4 C19"),
- "C20": ("enumeration of the feature power-set with the compiler as oracle (cargo check per cell), failing cells shrunk by greedy feature removal",
-         "Thorough: all 1044 cells (8+4+8+1024). Quick: all cells of the three small crates plus ~60 structured and seeded cells of nexrad-data. Feature lists are read from the Cargo.toml files of the working tree.",
+ "C20": ("enumeration of the feature power-set with the compiler as oracle (per cell: cargo build of the library target, cargo check --all-targets; thorough also cargo build --all-targets for every eighth cell), failing cells shrunk by greedy feature removal",
+         "Thorough: all 1044 cells (8+4+8+1024) plus cross-crate dep/feature cells (1331 in all). Quick: all cells of the three small crates, ~20 structured and 150 seeded cells of nexrad-data, and the cross-crate cells (219 in all). Feature lists are read from the Cargo.toml files of the working tree.",
          "rustc/cargo are the oracle; warnings are not failures; verif-hooks is excluded.",
          "DESIGN.md §4 C20"),
 }
@@ -118,7 +118,7 @@ manifest = {
         "add_only": True,
     },
     "engines": [
-        {"name": "featmatrix", "path": "/verif/featmatrix.py", "serves_properties": ["C20"], "kind_free_text": "Python driver: cargo check over the enumerated feature power-set, greedy shrinking of failing cells"},
+        {"name": "featmatrix", "path": "/verif/featmatrix.py", "serves_properties": ["C20"], "kind_free_text": "Python driver: cargo build (library) + cargo check --all-targets over the enumerated feature power-set and cross-crate dep/feature cells, greedy shrinking of failing cells"},
         {"name": "nexrad-verif", "path": "/verif/harness", "serves_properties": [p for p in ids if p in CHECKS and p != "C20"],
          "kind_free_text": "Rust binary: seeded proptest runners (16 workers), exhaustive enumerators, independent ICD wire encoder, reference models, loopback S3 simulator under tokio's paused clock; writes evidence and shrunk replay files"},
     ],
